@@ -574,7 +574,7 @@ double Units::scalingFactor(const UnitsPtr &units1, const UnitsPtr &units2, bool
     bool updateUnits1 = false;
     bool updateUnits2 = false;
 
-    if ((units1 != nullptr) && (units2 != nullptr)) {
+    if ((units1 != nullptr) && (units2 != nullptr) && !hasUnitsCycle(units1) && !hasUnitsCycle(units2)) {
         double multiplier = 0.0;
         updateUnits1 = updateUnitMultiplier(units1, -1, multiplier);
         updateUnits2 = updateUnitMultiplier(units2, 1, multiplier);
@@ -663,7 +663,7 @@ bool Units::requiresImports() const
     }
 
     auto model = owningModel(shared_from_this());
-    if (model != nullptr) {
+    if ((model != nullptr) && !hasUnitsCycle(shared_from_this())) {
         for (size_t u = 0; u < unitCount(); ++u) {
             const std::string ref = unitAttributeReference(u);
             auto child = model->units(ref);
@@ -751,12 +751,19 @@ UnitsPtr Units::UnitsImpl::clone(ImportSourceMap &importSourceMap) const
 
 bool Units::isDefined() const
 {
+    // Units with a cyclic definition are not defined.
+    if (hasUnitsCycle(shared_from_this())) {
+        return false;
+    }
     History history;
     return pFunc()->performTestWithHistory(history, shared_from_this(), TestType::DEFINED);
 }
 
 bool Units::doIsResolved() const
 {
+    if (hasUnitsCycle(shared_from_this())) {
+        return false;
+    }
     History history;
     return pFunc()->performTestWithHistory(history, shared_from_this(), TestType::RESOLVED);
 }
